@@ -15,7 +15,8 @@ PROPERTY = "C17"
 RULES = {
     "R1": "no file-system effect: from from_proto, every deserialize function, the proto/external tensor constructors "
     "and the name/dtype/shape/size/nbytes/doc_string/metadata accessors of every tensor class, no function with a "
-    "file-system primitive is reachable (type-resolved call graph incl. property reads)",
+    "file-system primitive is reachable (type-resolved call graph incl. property reads)"
+    " ; string formatting (f-strings, str/repr/format, logging arguments, exception messages) is followed to the formatted class's __format__/__str__/__repr__",
     "R2": "structural termination: every recursive call among the deserialize functions passes a strict sub-term of the "
     "caller's proto parameter; deserialize functions have no while loop on unbounded state; for-loops iterate proto "
     "fields or locals built from them",
